@@ -16,6 +16,7 @@
 package simrt
 
 import (
+	"sync/atomic"
 	"fmt"
 	"iter"
 	"os"
@@ -269,11 +270,19 @@ func Tick() {
 		panic(r.Aborted)
 	}
 	r.Ticks++
+	if r.Ticks&4095 == 0 {
+		Progress.Add(4096)
+	}
 	if r.Ticks > r.MaxTicks {
 		r.Aborted = Hang{r.Ticks, callerName(false)}
 		panic(r.Aborted)
 	}
 }
+
+// Progress counts simulated ticks process-wide (in steps of 4096): a wall-clock
+// watchdog reads it to tell a slow machine (ticks keep coming, the tick budget will
+// end the run) from a loop in code that has no ticks.
+var Progress atomic.Uint64
 
 // Enter / Leave bracket every instrumented function.
 func Enter() {
@@ -285,6 +294,9 @@ func Enter() {
 		panic(r.Aborted)
 	}
 	r.Ticks++
+	if r.Ticks&4095 == 0 {
+		Progress.Add(4096)
+	}
 	r.Depth++
 	if r.Depth > r.PeakDepth {
 		r.PeakDepth = r.Depth
